@@ -1101,3 +1101,237 @@ func ReachingFieldStores(base ssa.Value, field string, instr ssa.Instruction) []
 	}
 	return out
 }
+
+// ---------------------------------------------------------------------------
+// NilFlow: forward propagation of "value is nil / non-nil" facts along paths
+// that start at one edge, through phis (a phi takes the fact of the incoming
+// value on the edge actually travelled). Facts that differ between joining
+// paths are dropped. Used to prune branch edges that are infeasible on the
+// paths of interest and to classify returns reached on those paths.
+
+type NilFlow struct {
+	f  *ssa.Function
+	at map[*ssa.BasicBlock]map[ssa.Value]Tri // at block head (after phis); only True/False stored
+}
+
+func intrinsicNil(v ssa.Value) Tri {
+	if IsNilConst(v) {
+		return True
+	}
+	switch x := v.(type) {
+	case *ssa.MakeInterface, *ssa.Alloc, *ssa.MakeMap, *ssa.MakeSlice, *ssa.MakeClosure, *ssa.Function:
+		return False
+	case *ssa.Call:
+		if isErrorConstructor(&x.Call) {
+			return False
+		}
+	case *ssa.UnOp:
+		if x.Op == token.MUL {
+			if _, ok := x.X.(*ssa.Global); ok && IsErrorType(x.Type()) {
+				return False
+			}
+		}
+	}
+	return Unknown
+}
+
+func factOf(st map[ssa.Value]Tri, v ssa.Value) Tri {
+	if t := intrinsicNil(v); t != Unknown {
+		return t
+	}
+	if ci, ok := v.(*ssa.ChangeInterface); ok {
+		return factOf(st, ci.X)
+	}
+	return st[v]
+}
+
+// edgeFacts: facts established by taking from→Succs[si] (nil comparisons, comma-ok).
+func edgeFacts(from *ssa.BasicBlock, si int, st map[ssa.Value]Tri) (add map[ssa.Value]Tri, infeasible bool) {
+	add = map[ssa.Value]Tri{}
+	if len(from.Instrs) == 0 {
+		return
+	}
+	ifi, ok := from.Instrs[len(from.Instrs)-1].(*ssa.If)
+	if !ok || from.Succs[0] == from.Succs[1] {
+		return
+	}
+	cond := ifi.Cond
+	truth := si == 0
+	for {
+		if u, ok := cond.(*ssa.UnOp); ok && u.Op == token.NOT {
+			cond = u.X
+			truth = !truth
+			continue
+		}
+		break
+	}
+	// boolean facts are stored as True(=true)/False on the bool value itself
+	if known := st[cond]; known != Unknown {
+		if (known == True) != truth {
+			return add, true
+		}
+	}
+	if c, ok := ConstBool(cond); ok && c != truth {
+		return add, true
+	}
+	if truth {
+		add[cond] = True
+	} else {
+		add[cond] = False
+	}
+	if cmp, ok := cond.(*ssa.BinOp); ok && (cmp.Op == token.EQL || cmp.Op == token.NEQ) {
+		var other ssa.Value
+		if IsNilConst(cmp.Y) {
+			other = cmp.X
+		} else if IsNilConst(cmp.X) {
+			other = cmp.Y
+		}
+		if other != nil {
+			isNil := (cmp.Op == token.EQL) == truth
+			if k := factOf(st, other); k != Unknown && (k == True) != isNil {
+				return add, true
+			}
+			if isNil {
+				add[other] = True
+			} else {
+				add[other] = False
+			}
+		}
+	}
+	return
+}
+
+// NewNilFlow propagates from the edge from→Succs[si] with the initial facts.
+func NewNilFlow(from *ssa.BasicBlock, si int, init map[ssa.Value]Tri) *NilFlow {
+	nf := &NilFlow{f: from.Parent(), at: map[*ssa.BasicBlock]map[ssa.Value]Tri{}}
+	st0 := map[ssa.Value]Tri{}
+	for k, v := range init {
+		st0[k] = v
+	}
+	transfer := func(from, to *ssa.BasicBlock, si int, st map[ssa.Value]Tri) (map[ssa.Value]Tri, bool) {
+		add, inf := edgeFacts(from, si, st)
+		if inf {
+			return nil, false
+		}
+		out := map[ssa.Value]Tri{}
+		for k, v := range st {
+			out[k] = v
+		}
+		for k, v := range add {
+			out[k] = v
+		}
+		pi := -1
+		for i, p := range to.Preds {
+			if p == from {
+				pi = i
+			}
+		}
+		newPhi := map[ssa.Value]Tri{}
+		for _, in := range to.Instrs {
+			phi, ok := in.(*ssa.Phi)
+			if !ok {
+				break
+			}
+			if pi >= 0 {
+				e := phi.Edges[pi]
+				if c, ok := ConstBool(e); ok {
+					if c {
+						newPhi[phi] = True
+					} else {
+						newPhi[phi] = False
+					}
+				} else {
+					newPhi[phi] = factOf(out, e)
+				}
+			}
+		}
+		for k, v := range newPhi {
+			if v == Unknown {
+				delete(out, k)
+			} else {
+				out[k] = v
+			}
+		}
+		// values defined in `to` (non-phi) lose stale facts from an earlier iteration
+		for _, in := range to.Instrs {
+			if _, isPhi := in.(*ssa.Phi); isPhi {
+				continue
+			}
+			if v, ok := in.(ssa.Value); ok {
+				delete(out, v)
+			}
+		}
+		return out, true
+	}
+	var work []*ssa.BasicBlock
+	merge := func(to *ssa.BasicBlock, st map[ssa.Value]Tri) {
+		old, ok := nf.at[to]
+		if !ok {
+			nf.at[to] = st
+			work = append(work, to)
+			return
+		}
+		changed := false
+		for k, v := range old {
+			if st[k] != v {
+				delete(old, k)
+				changed = true
+			}
+		}
+		if changed {
+			work = append(work, to)
+		}
+	}
+	if st, ok := transfer(from, from.Succs[si], si, st0); ok {
+		merge(from.Succs[si], st)
+	}
+	for n := 0; len(work) > 0 && n < 100000; n++ {
+		b := work[len(work)-1]
+		work = work[:len(work)-1]
+		st := nf.at[b]
+		for si2, s := range b.Succs {
+			if out, ok := transfer(b, s, si2, st); ok {
+				merge(s, out)
+			}
+		}
+	}
+	return nf
+}
+
+// Reached reports whether block b is reachable on the propagated paths.
+func (nf *NilFlow) Reached(b *ssa.BasicBlock) bool { _, ok := nf.at[b]; return ok }
+
+// Fact returns what is known about v at the head of b on those paths.
+func (nf *NilFlow) Fact(v ssa.Value, b *ssa.BasicBlock) Tri {
+	st, ok := nf.at[b]
+	if !ok {
+		return Unknown
+	}
+	return factOf(st, v)
+}
+
+// Infeasible reports that edge b→Succs[si] cannot be taken on those paths.
+func (nf *NilFlow) Infeasible(b *ssa.BasicBlock, si int) bool {
+	st, ok := nf.at[b]
+	if !ok {
+		return true
+	}
+	_, inf := edgeFacts(b, si, st)
+	return inf
+}
+
+// ReturnKind classifies a return reached on those paths.
+func (nf *NilFlow) ReturnKind(rt *ssa.Return) RetKind {
+	ei := ErrResultIndex(rt.Parent())
+	if ei < 0 {
+		return RetSuccess
+	}
+	v := ResolveResult(rt, ei)
+	switch nf.Fact(v, rt.Block()) {
+	case True:
+		return RetSuccess
+	case False:
+		return RetFailure
+	}
+	return ClassifyReturn(rt)
+}
